@@ -275,12 +275,12 @@ func c09Templates() []c09Tpl {
 		{"unrestricted-exec-then-loop", `exec("true"); for true {}`, "", 100, 100},
 		// recursion through nested literals and argument positions under the default depth limit: every level must
 		// count towards the nesting limit that keeps the Go stack bounded
-		{"recdefault-arrays-4", `func f(n) {[[[[f(n + 1)]]]]}; f(0)`, "depth", 0, 3000},
-		{"recdefault-arrays-8", `func f(n) {[[[[[[[[f(n + 1)]]]]]]]]}; f(0)`, "depth", 0, 3000},
-		{"recdefault-args-4", `func id(x) {x}; func f(n) {id(id(id(id(f(n + 1)))))}; f(0)`, "depth", 0, 3000},
-		{"recdefault-maps-4", `func f(n) {{"a": {"b": {"c": {"d": f(n + 1)}}}}}; f(0)`, "depth", 0, 3000},
-		{"recdefault-mixed", `func g(n) {[f(n + 1), 1]}; func f(n) {{"k": [g(n + 1)]}}; f(0)`, "depth", 0, 3000},
-		{"recdefault-index", `func f(n) {[[1]][f(n + 1)][0]}; f(0)`, "depth", 0, 3000},
+		{"recdefault-arrays-4", `func f(n) {[[[[f(n + 1)]]]]}; f(0)`, "depth", 0, 60000},
+		{"recdefault-arrays-8", `func f(n) {[[[[[[[[f(n + 1)]]]]]]]]}; f(0)`, "depth", 0, 60000},
+		{"recdefault-args-4", `func id(x) {x}; func f(n) {id(id(id(id(f(n + 1)))))}; f(0)`, "depth", 0, 60000},
+		{"recdefault-maps-4", `func f(n) {{"a": {"b": {"c": {"d": f(n + 1)}}}}}; f(0)`, "depth", 0, 60000},
+		{"recdefault-mixed", `func g(n) {[f(n + 1), 1]}; func f(n) {{"k": [g(n + 1)]}}; f(0)`, "depth", 0, 60000},
+		{"recdefault-index", `func f(n) {[[1]][f(n + 1)][0]}; f(0)`, "depth", 0, 60000},
 		{"macro-loop", `m = macro(x) {for true {}}; m(1)`, "", 0, 0},
 		{"macro-rec", `m = macro(x) {func r(n) {r(n + 1)}; r(0)}; m(1)`, "", 0, 0},
 	}
